@@ -426,8 +426,8 @@ func (co *coord) runBox(bi int, deadline time.Time) *boxStats {
 			co.samples = append(co.samples, map[string]interface{}{"box": box.ID, "why": why, "events": lines})
 		}
 		addSample("deepest path", deepest)
-		for _, b := range []int{bit(fCommitOlderTerm), bit(fTruncation), bit(fSnapApplied), bit(fConfApplied), bit(fTwoLeaders), bit(fSnapBehindCompact), bit(fCampaignRefused), bit(fSnapWhileHeld)} {
-			if id, ok := firstWith[b]; ok && len(co.samples) < 12 {
+		for _, b := range []int{bit(fCommitOlderTerm), bit(fTruncation), bit(fSnapApplied), bit(fConfApplied), bit(fTwoLeaders), bit(fSnapBehindCompact), bit(fCampaignRefused), bit(fSnapWhileHeld), bit(fTruncInReady)} {
+			if id, ok := firstWith[b]; ok && len(co.samples) < 14 {
 				addSample("first path with "+flagNames[b], id)
 			}
 		}
@@ -435,8 +435,8 @@ func (co *coord) runBox(bi int, deadline time.Time) *boxStats {
 	return st
 }
 
-func bit(f uint32) int {
-	for b := 0; b < 32; b++ {
+func bit(f uint64) int {
+	for b := 0; b < 64; b++ {
 		if f == 1<<b {
 			return b
 		}
@@ -655,8 +655,32 @@ func run(prop string) int {
 		"(such a campaign leaves the state unchanged and is therefore not a recorded transition; both are counted where the library call is executed), campaigns_started_... = recorded transitions in which such a node did start an election (0 on a correct library); " +
 		"max_apply_backlog = largest committed - applied of any node in any state (0 in every box without lag)"
 	cov["apply_lag_coverage"] = lagcov
+	// persist lag (boxes B12*): a node that holds whole Readys before persisting them
+	plagcov := map[string]interface{}{}
+	for _, b := range []int{bit(fReadyHeldWhole), bit(fWhileHeldWhole), bit(fTruncHeldWhole), bit(fTruncMidHeldWhole), bit(fTruncInReady), bit(fPersistRelease), bit(fCrashHeldWhole)} {
+		plagcov[flagNames[b]] = agg[flagNames[b]]
+	}
+	plagEv := map[string]int{}
+	var plagBoxes []string
+	for _, st := range co.stats {
+		for _, k := range []uint8{evPLag, evPersist, evUnplag} {
+			plagEv[evNames[k]] += st.EventCounts[evNames[k]]
+		}
+		if st.Box != nil && st.Box.Bud.Plags > 0 {
+			plagBoxes = append(plagBoxes, st.Box.ID)
+		}
+	}
+	plagcov["events"] = plagEv
+	plagcov["boxes_with_persist_lag_in_the_alphabet"] = plagBoxes
+	plagcov["legend"] = "plag(n): the application of n is slow in persisting - rd := Ready() is taken (the library is told so) and the WHOLE Ready is held: HardState, entries and snapshot not persisted, messages not sent, committed entries not applied, no Advance; " +
+		"until persist(n) every input to n (Step, Campaign, Tick, Propose, ...) calls the library without a Ready cycle, as etcd's node.run keeps serving recvc / propc / tickc after it handed a Ready to the application; " +
+		"persist(n) first compares the held Ready with a deep copy taken at the hand-out (ReadyMutatedAfterHandOut), then persists HardState / snapshot / entries from the held value, sends its messages, applies its committed entries, calls Advance, resumes the Ready loop and holds the next Ready; " +
+		"a crash loses a held Ready entirely (storage untouched, messages never sent). Counters are recorded transitions: readys_held = transitions that ended with a fresh Ready held; inputs_stepped = library calls on a node holding one; " +
+		"msgapps_that_truncated_* = a MsgApp stepped by such a node replaced unstable entries (conflict with a leader of a later term) / starting strictly inside the unstable entries (the third case of unstable.truncateAndAppend) / starting inside the index range of the held Ready's Entries, i.e. the slots the application is about to persist"
+	cov["persist_lag_coverage"] = plagcov
 	assumptions := []string{
 		"a node's local step and the handling of the Ready structs it produces (persist, send, apply, Advance) form one atomic transition; a crash in between is represented by crash + message loss. Exception: boxes with lag in their alphabet (B10, B11): a node in lag mode persists and sends a Ready with committed entries but holds its committed page and its Advance; until apply / unlag the library is called without a Ready cycle (no further Ready is taken while one is held, like etcd's node.run). The application installs a Ready's snapshot when it persists the Ready (raftexample's order), before the held page",
+		"persist lag (boxes B12*): a node in plag mode holds every Ready as a whole - nothing persisted, sent or applied - until persist(n), which handles it from the held value in raftexample's order (HardState, snapshot, entries, messages, committed entries, Advance); inputs in between call the library without a Ready cycle; a crash loses the held Ready. The state key then also contains the held Ready's HardState, entry range and content hash, snapshot boundary, message count and content hash",
 		"while a node holds a Ready the state key additionally contains the held page (index range, content hash), what its Advance will mark stable, and what the RawNode has not handed out: unstable entries, unstable snapshot boundary and queued messages, read through reflection offsets (raft.msgs, raftLog.unstable); the lag flag is application state and survives a crash, a held Ready does not",
 		"elections are started only by the campaign event: ElectionTick is larger than any number of ticks in a run (pass 1) or the randomised election timeout is pinned (passes with PreVote/CheckQuorum)",
 		"MemoryStorage stands for the persistent store; everything written to it survives a crash",
